@@ -1,7 +1,7 @@
 from props import COMMON_TRUSTED
 
 SPEC = {
-    "translators": ["tr_layout.py"],
+    "translators": ["tr_layout.py", "tr_reader.py"],
     "harness": "c04",
     "cases": {"quick": 20000, "thorough": 600000},
     "profiles": {"quick": ["debug", "release"], "thorough": ["debug", "release"]},
@@ -9,16 +9,29 @@ SPEC = {
         "translators/tr_layout.py (regenerates coq/Gen/LayoutConsts.v from src/context.rs, src/gdef.rs, src/gsub.rs, "
         "src/layout.rs, src/tag.rs on every run: lookup-flag masks, GDEF class literals, recursion limit, "
         "special-cased tags, FEATURE_MASKS, GSUB lookup-type table; fails closed when LookupFlag getters, "
-        "get_ignore_marks, from_lookup_flag, match_glyph or glyph_is_mark_in_set change shape)",
+        "get_ignore_marks, from_lookup_flag, match_glyph or glyph_is_mark_in_set change shape; feature variations: "
+        "version / format numbers of LayoutTable::read, FeatureVariations::read, FeatureTableSubstitutionTable::read, "
+        "ConditionTable::read, and the shape of FeatureVariationsOwned::matches (its three match arms), "
+        "FeatureVariationRecord::{matches, condition_set, feature_table_substitution} (NULL-offset cases), "
+        "ConditionSet / ConditionSetTable / ConditionTable::matches (conjunction, inclusive range), "
+        "FeatureTableSubstitution::substitute (early break), find_langsys_feature, feature_variations, apply_rvrn, "
+        "build_lookups_custom, get_lookups_cache_index and the prologues of gsub_apply_custom / gsub_apply_default)",
+        "translators/tr_reader.py (C01's: regenerates coq/Gen/ReaderPrims.v, the unchecked read primitives the byte-level "
+        "feature-variations model reads through)",
         "harness/src/layoutser.rs + harness/src/bin/c04.rs: serialiser of the abstract lookup program to GSUB/GDEF bytes "
         "(the byte parser of layout.rs is exercised through it, not modelled)",
-        "the hand-written Gallina model coq/Model/Layout.v, coq/Model/Gsub.v (tied to the Rust by the correspondence runs)",
+        "the hand-written Gallina model coq/Model/Layout.v, coq/Model/Gsub.v, coq/Model/FeatureVariations.v (tied to the "
+        "Rust by the correspondence runs); for feature variations additionally the reader model coq/Model/Reader.v (C01)",
+        "ocaml/c04/drv.ml: the feature-variations oracle (decodes the FeatureVariations bytes with OCaml integers, "
+        "recomputes the first matching record and substitutes the abstract feature list before asking the model for glyphs)",
     ],
     "assumptions": [
         "Coverage format 1 glyph arrays are strictly increasing (std binary_search is modelled as 'position of the glyph')",
         "glyph vectors hold fewer than 2^62 elements (Rust Vec capacity); sequence tables hold fewer than 65536 glyphs",
-        "tuple = None (no feature variations); Features::Custom, and Features::Mask for scripts of ScriptType::Default "
-        "without the frac bit (the FRAC split and the script-specific shapers are not modelled)",
+        "Features::Custom, and Features::Mask for scripts of ScriptType::Default without the frac bit (the FRAC split "
+        "and the script-specific shapers are not modelled); with a variation tuple: GSUB 1.1 FeatureVariations on bytes",
+        "feature variations: a table is a byte string shorter than 2^32 (table_ok; only C04_fv_substituted_list_exists "
+        "uses it); the lookup-cache key FeatureTableSubstitution::cache_key only memoises (one gsub::apply per cache)",
         "GDEF tables are readable (a mark glyph set coverage with start > end makes GDEFTable::read fail)",
     ],
     "rule": "random abstract GSUB programs: 1-5 lookups of types 1,2,3,4,5,6,8 (every subtable format, coverage "
@@ -28,6 +41,13 @@ SPEC = {
             "glyph classes / mark attachment classes / 0-3 mark sets (or none), script/langsys/feature lists; glyph "
             "strings of 0-12 glyphs assembled from instances of the program's own rules interleaved with random "
             "glyphs; contextual lookups get overlapping subtables whose rule instances carry glyphs the lookup skips between input glyphs; feature tables share (non-idempotent) lookups; run gsub::apply(Features::Custom), gsub::apply(Features::Mask) or gsub_apply_lookup with whole-run / sub-window / "
-            "out-of-range windows; distinct = distinct input lines; class histogram = run kind (A or L<lookup "
-            "type>) / result (changed, same, err, panic)",
+            "out-of-range windows; half of the gsub::apply runs carry a version 1.1 header, a FeatureVariations table "
+            "(0-4 records; condition sets universal / empty / 1-3 conditions over a grid of F2Dot14 values with the "
+            "tuple's value exactly on the lower / upper boundary, one off, nested and overlapping regions, min > max, "
+            "axis beyond the tuple, unknown formats, dangling offsets, shared tables; substitutions NULL / version "
+            "1 / unsupported versions / dangling, records sorted, reversed, unsorted, duplicated, naming unused and "
+            "out-of-range feature indices, dangling alternate tables; bad major version, record count off by one, "
+            "truncation; header minor 0/1/2, NULL and out-of-table featureVariationsOffset) and a tuple of 0-3 grid "
+            "values (or None); distinct = distinct input lines; class histogram = run kind (A, M or L<lookup "
+            "type>) [+fv:<oracle decision: none, null, subst0, substN, error, unreadable>] / result (changed, same, err, panic)",
 }
